@@ -210,6 +210,9 @@ func (e *Exec) runPar(fns []*FuncV) {
 	}
 	parent := e.cur
 	p := &parState{parent: parent, maxPre: e.Opts.MaxPreempt}
+	if n, ok := e.ext["par.maxpre"].(int); ok {
+		p.maxPre = n // verifnd.Preempt: the harness chose the bound for this block
+	}
 	e.par = p
 	for i, fv := range fns {
 		th := &Thread{ID: len(e.threads), State: TRunnable, Name: fmt.Sprintf("par%d", i), ParSlot: i + 1}
